@@ -714,7 +714,39 @@ func runC14Extra(c *Ctx) {
 // drops both per-account caches together (an account object that survives
 // without its recorded trie entry is flushed as `unchanged`); (3) a read of an
 // account's snapshot consults the cached mutable account before the trie.
+// runC14Third: emptiness covers every field an account can carry without a contract; Clear
+// produces the same object a fresh account starts as.
+func runC14Third(c *Ctx) {
+	const pkg = "service/state"
+	if f := c.mustFn(pkg, "accountData", "IsEmpty"); f != nil {
+		read := map[string]bool{}
+		for _, b := range f.Blocks {
+			for _, in := range b.Instrs {
+				if fa, ok := in.(*ssa.FieldAddr); ok && namedOf(fa.X.Type()) == "accountData" {
+					read[faName(fa)] = true
+				}
+			}
+		}
+		for _, fld := range []string{"balance", "store", "isContract", "state"} {
+			c.check(read[fld], "C14.canonical-empty", "IsEmpty examines "+fld, f.Pos(), "read", "IsEmpty does not look at "+fld+": an account whose only content is that field is treated as absent and never reaches the trie, while it stays observable through the cache")
+		}
+	}
+	if f := c.mustFn(pkg, "accountStateImpl", "Clear"); f != nil {
+		av, okV := c.constVal(pkg, "AccountVersion")
+		n := 0
+		for _, st := range fieldStores([]*ssa.Function{f}, "accountData", "version") {
+			n++
+			k, isK := constInt(st.Store.Val)
+			c.check(okV && isK && k == av, "C14.canonical-empty", "Clear gives the account the current version", st.Store.Pos(), "version = AccountVersion", "version = "+render(st.Store.Val))
+		}
+		if n == 0 {
+			c.violate("C14.canonical-empty", "Clear gives the account the current version", f.Pos(), "Clear leaves the version unset: an account re-created after a rollback is encoded with another version than a fresh one, the state hash depends on the rollback history")
+		}
+	}
+}
+
 func runC14Second(c *Ctx) {
+	runC14Third(c)
 	const pkg = "service/state"
 	if f := c.mustFn(pkg, "accountStateImpl", "Reset"); f != nil {
 		lastStores := fieldStores([]*ssa.Function{f}, "accountStateImpl", "last")
